@@ -3,6 +3,7 @@ package main
 import (
 	"bytes"
 	"fmt"
+	"io"
 	"strconv"
 	"strings"
 	"unsafe"
@@ -20,6 +21,11 @@ func init() {
 	}
 	replayers["C02R"] = func(c *ctx, in []string) { c02R(c, unhx(in[0]), key4(in[1]), in[2], in[3], in[4]) }
 	replayers["C02WR"] = func(c *ctx, in []string) { c02WR(c, unhx(in[0]), key4(in[1]), key4(in[2]), in[3]) }
+	replayers["C02RC"] = func(c *ctx, in []string) { c02RC(c, unhx(in[0]), key4(in[1]), in[2], in[3]) }
+	replayers["C02G"] = func(c *ctx, in []string) {
+		n, _ := strconv.ParseInt(in[0], 10, 64)
+		c02G(c, n, key4(in[1]))
+	}
 	replayers["C02FB"] = func(c *ctx, in []string) {
 		a, _ := strconv.Atoi(in[1])
 		b, _ := strconv.Atoi(in[2])
@@ -87,6 +93,75 @@ func c02R(c *ctx, p []byte, key [4]byte, spec, tail, bufs string) {
 	buf := make([]byte, len(p)+1)
 	n, _ := cr.Read(buf)
 	c.emit("C02R %s %s %s %s %s -> %s %s %s", hx(p), hx(key[:]), spec, tail, bufs, hx(out), ioErrClass(err), hx(buf[:n]))
+}
+
+// C02RC: the mask reader drained by io.Copy (which takes a WriteTo fast path when the reader offers one)
+func c02RC(c *ctx, p []byte, key [4]byte, spec, tail string) {
+	src := newChunkReader(p, spec, tail)
+	cr := wsutil.NewCipherReader(src, key)
+	var out bytes.Buffer
+	_, err := io.Copy(&out, cr)
+	c.emit("C02RC %s %s %s %s -> %s %s", hx(p), hx(key[:]), spec, tail, hx(out.Bytes()), ioErrClass(err))
+}
+
+type patSrc struct{ pos, n int64 }
+
+func (s *patSrc) Read(p []byte) (int, error) {
+	if s.pos >= s.n {
+		return 0, io.EOF
+	}
+	k := int64(len(p))
+	if k > s.n-s.pos {
+		k = s.n - s.pos
+	}
+	b := byte(s.pos*7 + 3)
+	for i := int64(0); i < k; i++ {
+		p[i] = b
+		b += 7
+	}
+	s.pos += k
+	return int(k), nil
+}
+
+// C02G: one payload longer than 2^31 bytes through the mask reader (reused 1 MiB buffer, odd-sized reads at the
+// end): byte i is still payload[i] XOR key[i mod 4]
+func c02G(c *ctx, total int64, key [4]byte) {
+	out := "ok"
+	func() {
+		defer func() {
+			if r := recover(); r != nil {
+				out = "panic"
+			}
+		}()
+		cr := wsutil.NewCipherReader(&patSrc{n: total}, key)
+		buf := make([]byte, 1<<20)
+		var pos int64
+		bad := int64(-1)
+		sizes := []int{1 << 20, 1<<20 - 1, 3, 5, 1 << 20, 7}
+		for i := 0; ; i++ {
+			k := sizes[i%len(sizes)]
+			n, err := cr.Read(buf[:k])
+			// check the first and the last 16 bytes of every read
+			for j := 0; j < n; j++ {
+				if j == 16 && n > 32 {
+					j = n - 16
+				}
+				if buf[j] != byte((pos+int64(j))*7+3)^key[(pos+int64(j))%4] && bad < 0 {
+					bad = pos + int64(j)
+				}
+			}
+			pos += int64(n)
+			if err != nil {
+				break
+			}
+		}
+		if bad >= 0 {
+			out = fmt.Sprintf("bad:%d", bad)
+		} else if pos != total {
+			out = fmt.Sprintf("short:%d", pos)
+		}
+	}()
+	c.emit("C02G %d %s -> %s", total, hx(key[:]), out)
 }
 
 func c02W(c *ctx, p []byte, key [4]byte, splits string) {
@@ -291,6 +366,17 @@ func runC02(c *ctx) {
 			c02W(c, p, key, []string{"1000000", "65536,3", "65537", "40000"}[i%4])
 			c02R(c, p, key, []string{"-", "r65536", "r70001"}[i%3], []string{"eof", "eofdata"}[i%2], "1000000")
 		}
+	}
+	for i, spec := range []string{"r3", "r1", "5,1,9", "r7", "1,2,3,5,7,11,13", "-", "r4096", "4095,1,2"} {
+		p := make([]byte, []int{0, 1, 3, 10, 100, 5000, 9000}[i%7])
+		c.rng.Read(p)
+		c02RC(c, p, keys[1+i%2], spec, []string{"eof", "eofdata", "fail"}[i%3])
+	}
+	if c.thor {
+		c02G(c, 1<<31+3<<20+5, keys[1])
+		c02G(c, 1<<32+3<<20+3, keys[2])
+	} else {
+		c02G(c, 1<<31+3<<20+5, keys[2])
 	}
 	for _, n := range []int{65535, 65536, 65537, 65539, 131072, 131075, 200001} {
 		p := make([]byte, n)
